@@ -90,6 +90,7 @@ def encE : CExpr → List Int
   | .userJac k => [11, (k : Int)]
   | .own t => [12, (t : Int)]
   | .wrapSum e => 13 :: encE e
+  | .wrapVec e => 15 :: encE e
   | .wrapRows o r e => [14, (o : Int), (r : Int)] ++ encE e
 
 def encOE : Option CExpr → List Int
